@@ -1,10 +1,11 @@
 """Driver for C16: render identifier spellings at syntactic positions, run the real analyser, project how names are printed
 (case per part) and whether the read found what the write established.  No oracle logic."""
+from harness import REPO as _REPO
 import sys
 import warnings
 
-if "/repo" not in sys.path:
-    sys.path.insert(0, "/repo")
+if _REPO not in sys.path:
+    sys.path.insert(0, _REPO)
 WORDS = {"tab": ["dbx", "sch", "tab"], "col": ["col"], "ali": ["ali"]}
 CASE = {"low": str.lower, "UP": str.upper, "Mixed": lambda s: s[0].upper() + s[1:].lower()}
 QUOTE = {"none": ("", ""), "dq": ('"', '"'), "bt": ("`", "`"), "br": ("[", "]")}
